@@ -20,6 +20,15 @@ CHECKS = {
         design="§4 C06", engine="E1"),
 }
 
+CHECKS["C05"] = dict(
+    level="translation_validation",
+    text="Every public operator/constructor case is executed for real on operand skeletons (terminals, zeros, "
+         "literals, sums, list tensors, permuting component tensors, shared/repeated free indices); shape and "
+         "free indices are compared with the requested operation and z3 proves the built expression equals "
+         "the requested operation written directly over the operand values, for all operand values.",
+    technique="SMT translation validation of constructor simplifications (z3 NRA) + CrossHair on index-merge utilities",
+    design="§4 C05", engine="E1")
+
 NOT_APPLICABLE = {
     "C11": "Signature injectivity is injectivity of string renderings (repr/str, numpy array printing, float "
            "formatting) composed with sha512: CrossHair cannot confirm it, z3/cvc5 string theories answer unknown, "
